@@ -711,7 +711,7 @@ func ruleS8x(c *Ctx) {
 // ---- L3b pointer fields of a row cell are dereferenced only under a nil test --------------------------------------------
 
 func ruleL3b(c *Ctx, rels ...string) {
-	c.Rule("L3b", "a row cell carries one kind of value: a pointer field of a table.Cell (S, N, P, L, T) taken from a row is dereferenced only where that same field was tested non-nil on the path (or the value was just built with that field set)", 5)
+	c.Rule("L3b", "a row cell carries one kind of value: a pointer field of a table.Cell (S, N, P, L, T) taken from a row is dereferenced only where that same field was tested non-nil on the path (or the value was just built with that field set)", 3)
 	cell := c.mustNamed("bql/table", "Cell")
 	if cell == nil {
 		return
